@@ -320,22 +320,23 @@ theorem loopC_APins (cx : DefCtx) (pins : List APin) (acc : List CPin) (h : ∀ 
 
 def ANet.item (n : ANet) : NetItem :=
   match n.kind with
-  | .scalar a => ⟨a.ident, a.name, none, n.pins.map APin.pin⟩
-  | .bit bi bn i => ⟨bi, bn, some i, n.pins.map APin.pin⟩
+  | .scalar a => ⟨a.ident, a.name, none, n.pins.map APin.pin, 0⟩
+  | .bit bi bn i j => ⟨bi, bn, some i, n.pins.map APin.pin, j⟩
 
 theorem nameDef_ANetKind (k : ANetKind) (h : k.okB = true) (pins : List CPin) :
     ∀ rest, nameDef Meta.new (k.sexp :: rest) =
       .ok ({ data := (match k with
-        | .scalar a => (⟨a.ident, a.name, none, pins⟩ : NetItem)
-        | .bit bi bn i => ⟨bi, bn, some i, pins⟩).data, pfx := [S "EDIF"] }, rest) := by
+        | .scalar a => (⟨a.ident, a.name, none, pins, 0⟩ : NetItem)
+        | .bit bi bn i j => ⟨bi, bn, some i, pins, j⟩).data, pfx := [S "EDIF"] }, rest) := by
   intro rest
   cases k with
   | scalar a =>
     simp only [ANetKind.okB, Bool.and_eq_true] at h
     exact nameDef_AName_new a h.1.1 rest
-  | bit bi bn i =>
+  | bit bi bn i j =>
     simp only [ANetKind.okB, Bool.and_eq_true] at h
-    exact nameDef_bit bi bn i h.1.1.1.2 h.1.1.2 rest
+    have := parseRename_ok [] (bitIdent bi j) (bitName bn i) h.2 h.1.1.1.2 rfl
+    simp only [ANetKind.sexp, nameDef, Meta.new, this, bind, Except.bind, pure, Except.pure, NetItem.data]
 
 /-- **one net through `parse_portRef`**: the `(net …)` of an abstract design whose pin references
     resolve in the reader's view of the cell hands `multibit_add_cable` exactly the net's dictionary and
